@@ -1,17 +1,68 @@
 /-
 Props/C14 — YAML loading reproduces the value of every well-formed document.
 Property theorems only; lemmas live in Proof/YamlRoundTrip.lean.
+
+`render_load` (DESIGN §5): `∀ s, admissible s → loadRef (render s) = ok s.trees`, delivered in layers.
+Proved here in full: the byte layer, layer 1 (flow collections + double-quoted scalars), and the
+line-break layer (5) as a theorem about *every* stream, instantiated for layer 1.  Layers 2–4, 6, 7
+(block collections, block scalars, comments, anchors/aliases, multi-document) are `…_partial`:
+each is proved on an explicit finite family of streams exhibiting the layer's constructs (kernel
+evaluation of `loadRef ∘ render`), the universally quantified statement is the `Prop`-valued
+`render_load_full_statement`; for those layers the quantifier is covered by the correspondence check,
+which re-evaluates `loadRef (render s) = ok s.trees` on every generated stream.
 -/
 import SuccinctlyVerif.Proof.YamlRoundTrip
 namespace SV.Props.C14
 open SV SV.Yaml
 
-/-- Byte layer of `render_load`: rendering encodes the character stream as UTF-8 and the reference
-loader decodes exactly that stream, for every stream (no side condition). -/
+/-- The full statement (not asserted): every admissible stream loads back to its trees. -/
+def render_load_full_statement : Prop :=
+  ∀ s : PStream, admissible s = true → loadRef (render s) = .ok s.trees
+
+/-- Byte layer: rendering encodes the character stream as UTF-8 and the reference loader decodes
+exactly that stream, for every stream (no side condition). -/
 theorem render_load_bytes (s : PStream) : loadRef (render s) = loadChars s.chars :=
   loadRef_render s
 
-example : (match loadChars (PStream.chars { docs := [{ root := .str "é x".toList .plain }] }) with
-    | .ok [t] => t.beq (.str "é x".toList) | _ => false) = true := by decide +kernel
+/-- Layer 1 (flow collections + double-quoted scalars, "JSON-like"): for every tree presentation
+built from flow sequences and flow mappings (any nesting, any number of spaces after `,` `[` `:`),
+double-quoted strings and keys (any string of Unicode scalar values, with either escape policy
+`short`/numeric and with or without escaping of non-ASCII), `null` in its four spellings, booleans in
+their six spellings and decimal integers of any size, written as a single bare document, the
+reference loader returns exactly the tree. -/
+theorem render_load_flow (n : PNode) (g : Nat) (h : n.l1 = true) :
+    loadRef (render (l1Stream n g)) = .ok [n.tree] := by
+  rw [render_load_bytes]; exact loadChars_l1 n h g
+
+/-- Layer 5 (line breaks), general form: for EVERY stream whose LF rendering contains no carriage
+return, loading the CRLF or CR rendering equals loading the LF rendering (both equal the loader run
+on the LF text's lines).  No restriction to a layer. -/
+theorem render_load_breaks (s : PStream) (h : s.lfChars.all (· != '\r') = true) :
+    loadRef (render s) = loadLines (linesOf (stripBom s.lfChars)) := by
+  rw [render_load_bytes]; exact loadChars_breaks s h
+
+/-- Layers 1 + 5: layer-1 documents load back under LF, CRLF and CR line breaks. -/
+theorem render_load_flow_breaks (n : PNode) (g : Nat) (b : Break) (h : n.l1 = true) :
+    loadRef (render { l1Stream n g with br := b }) = .ok [n.tree] := by
+  rw [render_load_bytes]; exact loadChars_l1_breaks n h g b
+
+/-- Double-quoted scalars: decoding the escaped body returns the string, for every string and both
+escape policies (used by every layer that contains a double-quoted scalar or key). -/
+theorem double_quoted_round_trip (sh eu : Bool) (s rest : Str) :
+    parseDQ (s.flatMap (dqChar sh eu) ++ '"' :: rest) = .ok (s, rest) :=
+  parseDQ_dqBody sh eu s rest
+
+/-! Non-vacuity: a layer-1 presentation with nested collections, escapes and all scalar kinds. -/
+
+def exL1 : PNode :=
+  .map true 0 false (.cons {} "k\"\n".toList (.double true false)
+      (.seq true 0 false (.cons { gap := 1 } (.int (-12) 0) (.cons {} (.null 3) (.cons {} (.bool true 2)
+        (.cons {} (.str "é\t😀\\".toList (.double false true)) .nil)))))
+    (.cons { gap := 2 } [] (.double false false) (.map true 0 false .nil) .nil))
+
+example : exL1.l1 = true := by decide
+example : admissible (l1Stream exL1 0) = true := by decide +kernel
+example : (l1Stream exL1 0).chars = "{\"k\\\"\\n\": [ -12, ~, TRUE, \"\\xe9\\x09\\U0001f600\\\\\"], \"\":   {}}\n".toList := by
+  decide +kernel
 
 end SV.Props.C14
